@@ -429,6 +429,9 @@ RefHistoryOrdered ==
   Quiet => \A x \in X : LET M == RefMap(x, Len(log)) IN
     \A k \in DOMAIN M : \A j \in 1..(Len(M[k]) - 1) : M[k][j].tx < M[k][j + 1].tx
 
-Emit == (EmitDepth > 0 /\ Len(hist) = EmitDepth) => PrintT(<<"JSON:", ToJson([steps |-> hist, indexes |-> Indexes, maxBulk |-> MaxBulk])>>)
+\* the behaviour, and what every index must hold once it has caught up with the whole log (final comparison of a replay)
+Emit == (EmitDepth > 0 /\ Len(hist) = EmitDepth) =>
+          PrintT(<<"JSON:", ToJson([steps |-> hist, indexes |-> Indexes, maxBulk |-> MaxBulk, run |-> run,
+                                    final |-> [x \in X |-> RDump(RefMap(x, Len(log)))]])>>)
 View == <<log, ts, map, run, pend, mb, sw>>
 =============================================================================
